@@ -148,7 +148,8 @@ package ucfg
 //@ ensures [not_a_variable] !st.isvar ==> err != nil
 
 //@ func addString
-//@ trusted
+//@ props C07
+//@ sweep
 //@ pure
 //@ ensures len(result) >= 1
 
@@ -174,15 +175,17 @@ package ucfg
 //@ ghost func mergedWith(c *Config, from interface{}, opts []Option) bool
 
 //@ func New
-//@ trusted
+//@ props C07
+//@ sweep
 //@ pure
 //@ ensures result != nil && fresh(result)
 
 //@ func (*Config).Merge :: c, from, options -> err
-//@ trusted
+//@ props C07
+//@ sweep
 //@ requires c != nil
 //@ modifies tree(c)
-//@ ensures mergedWith(c, from, options)
+//@ ensures [naming !unproved] mergedWith(c, from, options)
 
 //@ ghost func copyOf(r value, x value) bool
 // cctx(v): the context value v was created with (heap-independent name; the implementations of cpy prove
@@ -278,10 +281,11 @@ package ucfg
 //@ ghost func mergedInto(to *Config, from *Config, opts *options) bool
 
 //@ func mergeConfig
-//@ trusted
+//@ props C07
+//@ sweep
 //@ requires to != nil && to.fields != nil && from != nil && from.fields != nil
 //@ modifies tree(to)
-//@ ensures result == nil ==> mergedInto(to, from, opts)
+//@ ensures [naming !unproved] result == nil ==> mergedInto(to, from, opts)
 
 //@ func mergeValues :: opts, old, v -> r, err
 //@ props C01
@@ -682,7 +686,8 @@ package ucfg
 //@ ghost func gotField(c *Config, name string, idx int) value
 
 //@ func makeOptions
-//@ trusted
+//@ props C07
+//@ sweep
 //@ pure
 //@ ensures result != nil && fresh(result)
 
@@ -729,11 +734,12 @@ package ucfg
 //@ pred single(m map[string]interface{}, k string, x interface{}) := has(m, k) && m[k] == x && forall k2 string :: has(m, k2) ==> k2 == k
 
 //@ func NewFrom :: from, opts -> r, err
-//@ trusted
+//@ props C07
+//@ sweep
 //@ pure
 //@ ensures err != nil ==> r == nil
 //@ ensures err == nil ==> r != nil && fresh(r)
-//@ ensures err == nil ==> forall k string :: forall x interface{} :: single(asmap(from), k, x) ==> builtFrom1(r, k, x, opts)
+//@ ensures [naming !unproved] err == nil ==> forall k string :: forall x interface{} :: single(asmap(from), k, x) ==> builtFrom1(r, k, x, opts)
 
 // ---------------------------------------------------------------- value constructors and copies (C10 freshness, C15 contexts, C02 late binding)
 
@@ -1199,10 +1205,11 @@ package ucfg
 //@ ensures r == pathStr(p)
 
 //@ func cfgRoot :: cfg -> r
-//@ trusted
+//@ props C07
+//@ sweep
 //@ pure
 //@ ensures (r == nil) == (cfg == nil)
-//@ ensures r == rootOf(cfg)
+//@ ensures [naming !unproved] r == rootOf(cfg)
 
 //@ func (*reference).resolveRef :: r, cfg, opts -> v, err
 //@ props C08 C02
@@ -1822,7 +1829,8 @@ package ucfg
 // Merging a configuration into itself is outside the contract of the merge functions (arrOK/dictOK
 // exclude aliasing): the caller has to rule it out.
 //@ func mergeFieldConfig
-//@ trusted
+//@ props C07
+//@ sweep
 //@ requires to != from
 //@ modifies tree(to)
 //@ ensures result == nil ==> mergedInto(to, from, opts.opts)
